@@ -220,6 +220,8 @@ pub fn make(prop: &str, tier: Tier, seed: u64) -> Scenario {
         }
         "C15" => {
             let mut g = Rng::new(seed);
+            // second stream: later additions to the plan do not change what a seed generated before
+            let mut g2 = Rng::new(seed ^ 0xC15_0002);
             let pn = g.range(3, 7) as usize;
             let pool = gen_pool(&mut g, pn);
             let mut stamp = 0u32;
@@ -241,7 +243,7 @@ pub fn make(prop: &str, tier: Tier, seed: u64) -> Scenario {
                     // every changeset carries a unique write so that all committed roots differ
                     if ws.iter().all(|w| w.1.is_none()) { ws[0].1 = Some(val(&mut g)); }
                     let r = g.below(10);
-                    ops.push(if r < 6 { crate::conc::WOp::Commit { writes: ws, nonblocking: g.chance(1, 2), retries: g.range(0, 2) as u32 } } else if r < 8 { crate::conc::WOp::OverlayCommit { writes: ws, nonblocking: g.chance(1, 2) } } else { crate::conc::WOp::Rollback { n: g.range(1, 2) as usize } });
+                    ops.push(if r < 6 { crate::conc::WOp::Commit { writes: ws, nonblocking: g.chance(1, 2), retries: g.range(0, 2) as u32, par: if g2.chance(1, 4) { g2.range(1, 2) as u32 } else { 0 } } } else if r < 8 { crate::conc::WOp::OverlayCommit { writes: ws, nonblocking: g.chance(1, 2) } } else { crate::conc::WOp::Rollback { n: g.range(1, 2) as usize } });
                 }
                 writers.push(ops);
             }
@@ -251,7 +253,7 @@ pub fn make(prop: &str, tier: Tier, seed: u64) -> Scenario {
                 for _ in 0..g.range(1, 3) {
                     let reads: Vec<K> = (0..g.range(1, 4)).map(|_| K(*g.pick(&pool))).collect();
                     let proves: Vec<K> = (0..g.range(0, 2)).map(|_| K(*g.pick(&pool))).collect();
-                    ops.push(crate::conc::ROp { reads, proves, hold: g.range(0, 4) as u32 });
+                    ops.push(crate::conc::ROp { reads, proves, hold: g.range(0, 4) as u32, helpers: if g2.chance(1, 3) { g2.range(1, 2) as u32 } else { 0 } });
                 }
                 readers.push(ops);
             }
